@@ -55,15 +55,31 @@ P = {
          "Each packed group (VLAN TCI, IPv4 version/IHL, DSCP/ECN, flags/fragment offset, IPv6 version/class/flow label, TCP offset/flags, fragment offset/M, IGMPv3 S/QRV) is enumerated completely on every run with its neighbours at zero and at all-ones, and tens of thousands of generated well-formed headers of every kind, payload chain, extension-header chain and option/source/record count are encoded by the library and compared with the independent RFC-layout encoder, decoded from the reference bytes and compared field by field (payload kinds included, which checks the demultiplexing), re-encoded and sized.",
          'Trusts the reference packet encoder. Well-formed headers only. One known finding (priority tags, VLAN id 0) is listed with a witness; TCP/IGMP payloads may be typed or opaque.',
          "5/C09"),
- "C10": (False, "", "", "", "5/C10"),
- "C11": (False, "", "", "", "5/C11"),
- "C12": (False, "", "", "", "5/C12"),
+ "C10": (True,
+         'runtime monitor: event log at the stream boundary (scripted connection, consumer) on one logical clock, checked offline for exactly-once, integrity, causality, no-loss at logical quiescence, single error publication, buffer conservation and post-delivery immutability; Go race detector',
+         "Thousands of real MessageStreams are run over a scripted in-memory connection that cuts the byte stream by plan (every byte alone, inside each length prefix, mid-body, many frames per read), with eager/slow/bursty consumers, yields around parser calls, GOMAXPROCS 1..16 and connection failures after planned bytes. Each delivered message must equal the direct parse of exactly one frame, once, after the read that completed it; with the connection open nothing may be missing when every goroutine is parked and the buffer pool must be whole; on failure exactly the injected error is published once; every delivered message is re-dumped at the end. The race detector watches the whole run.",
+         'Schedules are those the Go scheduler produced under the pacing plans (evidence reports distinct delivery orders, concurrent parsers, pool generations). Delivery of frames completed before a failure is not demanded. Pool conservation reads unexported state by reflection and is skipped (reported) if the layout changes.',
+         "5/C10"),
+ "C11": (True,
+         'runtime monitor: every Write of the real writer goroutine is recorded by the scripted connection; the written byte stream is re-framed and compared offline with the expected multiset and per-producer order; Go race detector',
+         "1..64 producer goroutines submit uniquely identified messages of all sizes to a real MessageStream; the recorded written bytes are re-framed by header length and must be exactly the expected encodings, each once, contiguous, with each producer's sequence numbers increasing; nothing may be missing at logical quiescence.",
+         "Expected bytes are the library's own encoding of a twin. No write errors are injected (the writer exits the process on error by design).",
+         "5/C11"),
+ "C12": (True,
+         'runtime monitors: reflective object-graph walk for slices aliasing the input array, and differential dump/re-encoding before and after overwriting the input',
+         "Every parseable frame kind (incl. packet-in payload chains, vendor and bundle nesting) is parsed from a window of a larger array; monitor A reports any slice in the result's object graph whose backing array overlaps the input array; monitor B overwrites the whole array twice and requires the deep dump and the re-encoding to be unchanged.",
+         'Only what is reachable from the parser entry point. The walk covers what reflection reaches (unexported fields included).',
+         "5/C12"),
  "C13": (True,
          'runtime monitor: all histories over {size query, encode} up to length 4 plus longer PRNG histories on fresh builds; outputs compared across histories; children re-encoded after their containers',
          "For each recipe fresh values go through all 30 short histories and PRNG histories of size queries and encodings; every size answer and every encoding must agree across all histories, and children's standalone encodings must be unchanged after their containers were sized/encoded twice.",
          'Compares outputs only (never internal state); values complete before the first query.',
          "5/C13"),
- "C14": (False, "", "", "", "5/C14"),
+ "C14": (True,
+         'runtime monitors: injectivity check over logged (goroutine, draw, id) events from every id route, sequential-vs-concurrent differential over independent work units, Go race detector',
+         "2..64 goroutines released together draw millions of ids per run through all 16 routes (contention measured as adjacent ids owned by different goroutines) and all must be pairwise distinct, also across cases in the process; independent build/encode/parse/dump work units must give concurrently exactly what they gave sequentially; the race detector reports any unsynchronised access to library state.",
+         'Schedules are those produced in the run. Distinctness, not monotonicity, is demanded.',
+         "5/C14"),
  "C15": (True,
          'runtime monitors: differential lookup-vs-reference-table check, header-word bijection sweep (all 2^32 words in the thorough tier), concurrent lookup/overwrite workload under the Go race detector',
          'The real registry is enumerated (through the verif hook) and every name, case variant and mask setting is looked up and compared with an independently transcribed OF1.3.5/OVS width table; the header pack/unpack inverse is executed over millions of words (all 2^32 in the thorough tier); independence of lookup results is exercised by 2..64 goroutines that overwrite every field of their results while the race detector watches and the stored entries are compared with a snapshot.',
